@@ -113,11 +113,20 @@ def run(res):
         rows.setdefault((t, f, pat, m), {})[pos] = (oc, err)
     failing = 0
     known_hits = {}
+    uniform_shift = []
     for key, row in rows.items():
         ref = row[matrix.REFERENCE][0]
         want = "pass" if key[3] else "fail"
         if ref != want:
-            raise vlib.CheckError("matrix reference cell is not what the generator intended: %s -> %s" % (key, ref))
+            # the struct-field cell is not what it is on the tree the generator was validated on.  If every position agrees with it
+            # the pattern still means the same everywhere (a change of meaning, not of uniformity: reported without a failing input
+            # of C11's own); otherwise take a position that still gives the intended outcome as the reference
+            others = {oc for pos, (oc, _) in row.items() if not (pos in KNOWN_POS and oc.startswith("reject"))}
+            if len(others) == 1:
+                uniform_shift.append((key, ref))
+                continue
+            if any(oc == want for oc, _ in row.values()):
+                ref = want
         for pos, (oc, err) in row.items():
             if oc == ref:
                 continue
@@ -130,11 +139,15 @@ def run(res):
             failing += 1
             if failing <= 3:
                 res.violation("failing-input",
-                              "pattern `%s` on a %s value is %s as a struct field but %s in position `%s`"
-                              % (key[2], key[0], ref, oc, pos),
+                              "pattern `%s` on a %s value is %s %s but %s in position `%s`"
+                              % (key[2], key[0], ref, "as a struct field" if row[matrix.REFERENCE][0] == ref else "in position `%s`" % next(p for p, (o, _) in row.items() if o == ref), oc, pos),
                               {"target": key[0], "form": key[1], "pattern": key[2], "position": pos,
                                "reference_outcome": ref, "outcome": oc, "rustc": err,
                                "program": matrix.program(key[0], pos, key[2])})
+    if uniform_shift and not failing:
+        res.violation("no-failing-input-found", "correspondence form x position matrix: %d (value, pattern) pairs no longer give the outcome they give on the tree the "
+                      "generator was validated on, in EVERY position alike (so no position disagrees with another), first: %s -> %s"
+                      % (len(uniform_shift), uniform_shift[0][0], uniform_shift[0][1]), {"stream": "matrix", "pairs": [list(map(str, k)) for k, _ in uniform_shift[:10]]})
     if known_hits.get("C11-eq-on-a-string-slice"):
         res.known.append("`== \"literal\"` on a value of type &str is accepted where the value is a destructured binding (struct field, tuple / variant / slice "
                          "element) and rejected (E0277 `str: PartialEq<&str>`) as the root pattern and after a field operation: the generated method call "
